@@ -637,9 +637,10 @@ class IH5Group(IH5InnerNode):
         dst_name: str
         if isinstance(dest, str):
             # if dest is a path, ignore inferred/passed name
-            segs = self._abs_path(dest).split("/")
-            dst_group = self.require_group("/".join(segs[:-1]) or "/")
-            dst_name = segs[-1]
+            # (missing intermediate groups are created along with the target, i.e.
+            # after the source was collected - they could be located inside of it)
+            dst_group = self["/"]
+            dst_name = self._abs_path(dest).strip("/")
         else:
             # given dest is a group node, use inferred/passed name
 
@@ -734,6 +735,14 @@ def h5_copy_from_to(
         node = target_group.create_dataset(target_path, data=source_node[()])
         copy_attrs(source_node, node)  # copy dataset attributes
     else:
+        # collect the source nodes first - the target could be located inside of the
+        # source group, then traversing while copying would never terminate
+        src_children = []
+        if shallow:  # only immediate children
+            src_children = list(source_node.items())
+        else:  # recursive copy
+            source_node.visititems(lambda name, node: src_children.append((name, node)))
+
         trg_root = target_group.create_group(target_path)
         copy_attrs(source_node, trg_root)  # copy source node attributes
 
@@ -745,8 +754,5 @@ def h5_copy_from_to(
                 trg_root.create_group(name)
             copy_attrs(src_child, trg_root[name])
 
-        if shallow:  # only immediate children
-            for name, src_child in source_node.items():
-                copy_children(name, src_child)
-        else:  # recursive copy
-            source_node.visititems(copy_children)
+        for name, src_child in src_children:
+            copy_children(name, src_child)
